@@ -90,4 +90,91 @@ func directC03(g *G, rep *Report) {
 		}
 	}
 	rep.Extra["generator_stats"] = bg.stats
+	directC03Modes(g, rep)
+}
+
+// directC03Modes: the effective autoescape mode is re-derived for every callee from ITS namespace and
+// template attributes (namespace default, template override; unspecified = on), never inherited from the
+// caller.  Exhaustive over namespace attr x template attr for a chain of three templates in three files,
+// for the three ways of passing data; the expected output is computed here.
+func directC03Modes(g *G, rep *Report) {
+	nsAttrs := []string{"", "true", "false", "contextual"}
+	tAttrs := []string{"", "true", "false"}
+	attr := func(a string) string {
+		if a == "" {
+			return ""
+		}
+		return ` autoescape="` + a + `"`
+	}
+	eff := func(ns, t string) bool { // escaping on?
+		m := ns
+		if t != "" {
+			m = t
+		}
+		return m != "false"
+	}
+	esc := "T&lt;&amp;&#34;&#39;&gt;T"
+	show := func(on bool) string {
+		if on {
+			return esc
+		}
+		return taint
+	}
+	callForms := []string{"all", "param", "map"}
+	count := 0
+	for _, n0 := range nsAttrs {
+		for _, t0 := range tAttrs {
+			for _, n1 := range nsAttrs {
+				for _, t1 := range tAttrs {
+					for _, n2 := range nsAttrs {
+						for _, t2 := range tAttrs {
+							count++
+							if g.Quick() && count%5 != int(g.Seed%5) {
+								continue
+							}
+							form := callForms[count%3]
+							call := func(target string) string {
+								switch form {
+								case "all":
+									return "{call " + target + ` data="all"/}`
+								case "param":
+									return "{call " + target + "}{param p: $p/}{param m: $m/}{/call}"
+								}
+								return "{call " + target + ` data="$m"/}`
+							}
+							mk := func(ns, nsa, ta, body string) srcFile {
+								return srcFile{ns + ".soy", "{namespace " + ns + attr(nsa) + "}\n/**\n * @param p\n * @param m\n */\n{template .t" + attr(ta) + "}\n" + body + "\n{/template}\n"}
+							}
+							fs := []srcFile{
+								mk("n0", n0, t0, "0({$p}{$m.p})"+call("n1.t")),
+								mk("n1", n1, t1, "1[{$p}{let $c}{$m.p}{/let}{$c|noAutoescape}]"+call("n2.t")),
+								mk("n2", n2, t2, "2<{$p}{msg desc=\"d\"}x{$m.p}y{/msg}>"),
+							}
+							reg, err := compileBundle(fs)
+							rep.Evaluations++
+							if err != nil {
+								rep.Distribution["modes:compile-error"]++
+								continue
+							}
+							leaf := map[string]interface{}{"p": taint, "m": map[string]interface{}{"p": taint}}
+							d := toData(map[string]interface{}{"p": taint, "m": map[string]interface{}{"p": taint, "m": map[string]interface{}{"p": taint, "m": leaf}}})
+							out, class := renderSafe(reg, "n0.t", d, nil)
+							rep.Distribution["modes:"+class]++
+							e0, e1, e2 := eff(n0, t0), eff(n1, t1), eff(n2, t2)
+							want := "0(" + show(e0) + show(e0) + ")1[" + show(e1) + show(e1) + "]2<" + show(e2) + "x" + show(e2) + "y>"
+							if class != "OK" || out != want {
+								rep.Violations = append(rep.Violations, Viol{
+									Key:  "effective-mode:" + n0 + "/" + t0 + ">" + n1 + "/" + t1 + ">" + n2 + "/" + t2 + ":" + form,
+									What: "the autoescape mode in force in a called template is not the one its own namespace/template attributes define",
+									Req:  req("render", encSources(fs), hxs("n0.t")), Note: "ns/template attrs " + n0 + "/" + t0 + " -> " + n1 + "/" + t1 + " -> " + n2 + "/" + t2 + " call form " + form,
+									Impl: class + " " + out, Want: want})
+							} else if e0 != e1 || e1 != e2 {
+								rep.DistinctNT++
+							}
+						}
+					}
+				}
+			}
+		}
+	}
 }
